@@ -5,7 +5,7 @@
    code as it is in the tree ([AuthN.cookie_checks_disabled] = true: the repaired session paths);
    [step_gen C ccd rcp] has the Disabled() test of the session paths as a parameter.
    A history is any list of operations from the empty database: [reach C ccd cap ops]. *)
-From SG Require Import Base.Prelude C12.AuthN C12.Instance C12.AuthNProofs C12.OneTime C12.Rest C12.RestProofs.
+From SG Require Import Base.Prelude C12.AuthN C12.Instance C12.AuthNProofs C12.OneTime C12.Rest C12.RestProofs C12.Epoch C12.EpochProofs C12.Expiry C12.ExpiryProofs.
 Open Scope N_scope.
 
 Definition reach (C : crypto) (ccd rcp : bool) (capacity : N) (ops : list op) : state C :=
@@ -358,6 +358,63 @@ Proof.
 Qed.
 Print Assumptions C12_rest_invalidated_session_never_serves.
 
+(* ---- the SessionUUID: what binds a session to the INCARNATION of the user it was issued to (Epoch.v) ---- *)
+
+(* in every reachable state every user has a NON-EMPTY SessionUUID (0 = "", the zero value of a fresh userImpl), also
+   users without a password hash (allow_empty_password) -- whatever path created or last updated the principal *)
+Theorem C12_session_uuid_never_empty : forall C ccd rcp capacity ops u usr,
+  alookup u (users (reach C ccd rcp capacity ops)) = Some usr -> u_uuid usr <> 0.
+Proof.
+  exact uuid_never_empty.
+Qed.
+Print Assumptions C12_session_uuid_never_empty.
+
+(* every operation that creates a principal or changes its credentials -- CreateUser (also of a name that existed
+   before), SetPassword (with or without a password, with or without a hash stored before), delete-all-sessions --
+   gives the user a SessionUUID that is not empty and differs from the SessionUUID of EVERY user and EVERY session
+   document of EVERY earlier state of the history (ops0 = the history up to any earlier point, ops = what happened
+   since): no incarnation ever carries the SessionUUID of an earlier one, in particular not its empty value *)
+Theorem C12_session_uuid_fresh_per_incarnation : forall C ccd rcp capacity ops0 ops o u,
+  let st0 := reach C ccd rcp capacity ops0 in
+  let st := run_gen C ccd rcp st0 ops in
+  rotates o u -> snd (step_gen C ccd rcp st o) = ODone ->
+  let st' := fst (step_gen C ccd rcp st o) in
+  exists usr', alookup u (users st') = Some usr' /\ u_uuid usr' <> 0 /\
+    (forall v usr, alookup v (users st0) = Some usr -> u_uuid usr <> u_uuid usr') /\
+    (forall sid s, alookup sid (sessions st0) = Some s -> s_uuid s <> u_uuid usr') /\
+    (forall v usr, alookup v (users st) = Some usr -> u_uuid usr <> u_uuid usr') /\
+    (forall sid s, alookup sid (sessions st') = Some s -> s_uuid s <> u_uuid usr').
+Proof.
+  intros C ccd rcp capacity ops0 ops o u st0 st R H st'.
+  exact (rotation_fresh C ccd rcp st0 ops o u (Inv_reach C ccd rcp capacity ops0) (EInv_reach C ccd rcp capacity ops0) R H).
+Qed.
+Print Assumptions C12_session_uuid_fresh_per_incarnation.
+
+(* a presented session (cookie, one-time token, GetSession) yields a user only if the SessionUUID it carries is the
+   non-empty SessionUUID the user has NOW: together with the theorem above, only a session issued to the present
+   incarnation and credential epoch of the user *)
+Theorem C12_session_authenticates_issuing_incarnation : forall C ccd rcp capacity ops sid o w,
+  let st := reach C ccd rcp capacity ops in
+  presents o sid -> authed (snd (step_gen C ccd rcp st o)) = Some w ->
+  exists s usr, alookup sid (sessions st) = Some s /\ alookup w (users st) = Some usr /\
+    s_uuid s = u_uuid usr /\ s_uuid s <> 0.
+Proof.
+  intros C ccd rcp capacity ops sid o w st P H.
+  exact (session_auth_epoch C ccd rcp st sid o w (EInv_reach C ccd rcp capacity ops) P H).
+Qed.
+Print Assumptions C12_session_authenticates_issuing_incarnation.
+
+(* non-vacuity: a passwordless user, its session, delete + re-create without a password, SetPassword "" on a user
+   without a hash: three distinct non-empty SessionUUIDs, and the old session is refused *)
+Example C12_epoch_nonvacuous :
+  let ops := [CreateUser 1 0 1 4; CreateSession 1 1 1000 false; AuthCookie 1; DeleteUser 1; CreateUser 1 0 2 4;
+              AuthCookie 1; SetPassword 1 0 3 4; SetDisabled 1 true] in
+  outs XC (init XC 10) ops
+  = [ODone; ODone; OCookie (Some 1) false; ODone; ODone; OCookie None false; ODone; ODone] /\
+  intern (epochs XC (init XC 10) ops [1; 1; 1; 1; 1; 1; 1; 1])
+  = [Some 1; Some 1; Some 1; None; Some 2; Some 2; Some 3; Some 3].
+Proof. vm_compute. split; reflexivity. Qed.
+
 (* non-vacuity: the hypotheses on the external functions are satisfiable (by the instance the correspondence
    evaluates with), and a concrete history authenticates with the password, with a cookie, once with a
    one-time session, and is refused with the wrong password and on the second one-time presentation *)
@@ -393,3 +450,18 @@ Example C12_rest_nonvacuous :
      RAuth (Denied SessionStale); RAuth (Served None);
      RAuth (Denied SessionInvalid); RCode 200; RAuth (Denied InvalidLogin)].
 Proof. vm_compute. reflexivity. Qed.
+
+(* A session that CreateSession reported as created is kept by the bucket exactly until the Expiration it carries,
+   for EVERY time-to-live (>= 1 s) -- in particular on both sides of the 30-day boundary where the bucket's expiry
+   field switches from "seconds from now" to an absolute time (base.DurationToCbsExpiry) -- and every clock.
+   Tied to the code by the monitor session_stored_until_expiry (bucket expiry read back from the store). *)
+Theorem C12_session_stored_until_expiry : forall now ttl t,
+  1 <= ttl -> max_delta < now ->
+  stored_at (bucket_deadline now (cbs_expiry now ttl)) t = (t <? now + ttl).
+Proof. exact stored_until_expiration. Qed.
+Print Assumptions C12_session_stored_until_expiry.
+
+Example C12_session_expiry_nonvacuous :
+  stored_at (bucket_deadline 1700000000 (cbs_expiry 1700000000 2678400)) 1700000001 = true /\
+  stored_at (bucket_deadline 1700000000 (cbs_expiry 1700000000 3600)) 1700003600 = false.
+Proof. vm_compute. split; reflexivity. Qed.
